@@ -41,7 +41,7 @@ import (
 
 func cases(tier string) int {
 	if tier == "thorough" {
-		return 1200
+		return 640
 	}
 	return 80
 }
